@@ -586,6 +586,32 @@ def rule_enc1(ctx: Ctx) -> RuleResult:
               "explicit encoding" if has_enc else
               "no encoding given: under a non-UTF-8 locale the write raises UnicodeEncodeError after the existing file "
               "was truncated", call.lineno)
+        # ENC-2: the text is known to be encodable before the existing file is truncated
+        if has_enc:
+            rr.instances += 1
+            cfg = ctx.cfg(f)
+            dom = cfg.dominators()
+            on = cfg.node_containing(call, f.module.parents)
+            written = set()
+            par = f.module.parents.get(call)
+            if isinstance(par, ast.withitem):
+                w = f.module.parents.get(par)
+                for x in ast.walk(w):
+                    if isinstance(x, ast.Call) and isinstance(x.func, ast.Attribute) and x.func.attr in ("write", "writelines"):
+                        written |= {a.id for a in x.args if isinstance(a, ast.Name)}
+            elif mode == "write_text":
+                written |= {a.id for a in call.args[:1] if isinstance(a, ast.Name)}
+            pre = [c for c in walk_no_nested(f.node) if isinstance(c, ast.Call) and isinstance(c.func, ast.Attribute)
+                   and c.func.attr == "encode" and isinstance(c.func.value, ast.Name) and c.func.value.id in written
+                   and cfg.node_containing(c, f.module.parents) in dom.get(on, ()) and cfg.node_containing(c, f.module.parents) != on]
+            binary = kind == "open" and mode is not None and "b" in mode
+            ok2 = bool(pre) or binary
+            rr.ob(f.relpath, f.qualname, norm(pre[0]) if pre else f"{sorted(written)} encoded before open?",
+                  "the generated text is encoded (or proven encodable) before the output file is opened, so data that cannot be "
+                  "encoded (a lone surrogate in a key or value) fails the run without truncating the existing file",
+                  DISCHARGED if ok2 else VIOLATED, "encode() dominates the open" if ok2 else
+                  "the first attempt to encode the text is the write itself, after the file was truncated: a sample such as "
+                  "{\"k\": \"v\\ud800\"} leaves an empty output file behind", call.lineno)
     if rr.instances == 0:
         raise AnalysisError("ENC-1: no text write found on CLI paths")
     return rr
@@ -631,4 +657,46 @@ def rule_lookup1(ctx: Ctx) -> RuleResult:
                   "loader called on this path" if called else
                   "this path through the loop body skips the loader (cache / early continue): a bad file is never looked at",
                   lp.lineno)
+    return rr
+
+
+def rule_keychk1(ctx: Ctx) -> RuleResult:
+    """Non-string keys are rejected wherever the keys of a sample object are consumed (models and mappings alike)."""
+    rr = RuleResult("KEYCHK-1", "a sample object with a non-string key is an error, as a model and as a mapping", floor=2)
+    prog = ctx.prog
+    GENF = "json_to_models/generator.py"
+
+    def checks_key(fi: FuncInfo, stmts, keyvar_hint=None) -> bool:
+        """Do the statements test isinstance(<key>, str) and raise, directly or through a helper?"""
+        for st in stmts:
+            for x in ast.walk(st):
+                if isinstance(x, ast.If) and "isinstance(" in norm(x.test) and ", str)" in norm(x.test) and any(
+                        isinstance(y, ast.Raise) for b in x.body for y in ast.walk(b)):
+                    return True
+                if isinstance(x, ast.Call):
+                    for t in ctx.cg.resolve_call(fi, fi.module, x):
+                        if isinstance(t, FuncInfo) and t is not fi and any(
+                                isinstance(y, ast.If) and "isinstance(" in norm(y.test) and ", str)" in norm(y.test) and any(
+                                    isinstance(z, ast.Raise) for b in y.body for z in ast.walk(b)) for y in walk_no_nested(t.node)):
+                            return True
+        return False
+
+    conv = prog.func(GENF, "MetadataGenerator._convert")
+    lp = next((n for n in walk_no_nested(conv.node) if isinstance(n, ast.For) and norm(n.iter).endswith(".items()")), None)
+    rr.instances += 1
+    ok = lp is not None and checks_key(conv, lp.body)
+    rr.ob(conv.relpath, conv.qualname, "for key, value in data.items(): <check key>", "every key of an object that becomes a "
+          "model is checked to be a string", DISCHARGED if ok else VIOLATED, "checked in the loop" if ok else "no check", conv.node.lineno)
+    det = prog.func(GENF, "MetadataGenerator._detect_type")
+    v = [p for p in det.params if p != "self"][0]
+    flag = [p for p in det.params if p != "self"][1]
+    for iff in walk_no_nested(det.node):
+        if isinstance(iff, ast.If) and norm(iff.test) == flag and iff.orelse:
+            rr.instances += 1
+            ok = checks_key(det, iff.orelse)
+            rr.ob(det.relpath, det.qualname, f"if {flag}: ... else: <mapping branch>", "the keys of an object typed as a mapping "
+                  "(dict-keys field or regex) are checked to be strings as well", DISCHARGED if ok else VIOLATED,
+                  "checked before the value types are collected" if ok else
+                  "the mapping branch never looks at the key types: YAML `files: {1: a}` under --dkf files exits 0 and emits "
+                  "Dict[str, ...]", iff.lineno)
     return rr
